@@ -4,6 +4,7 @@
   `serde_json::Map` (no `preserve_order`) keep keys sorted; integers and floats are different JSON numbers
   (`1` vs `1.0`).  Floats are IEEE-754 bit patterns.  Core only.
 -/
+import Nervus.Model.Generated.CapiRows
 namespace Nervus.CApiJson
 
 mutual
@@ -104,5 +105,60 @@ def FaithfulKVs : VKVs → Bool
   | .nil => true
   | .cons _ v rest => Faithful v && FaithfulKVs rest
 end
+
+
+/-! ### rows: reification and conversion (nervusdb-capi execute_read_rows, row_to_json, make_result_handle_from_rows) -/
+
+mutual
+/-- mirrors `Value::reify`: node references are replaced by the materialised node (`look`), recursively through
+    lists and maps; everything else is unchanged -/
+def reify (look : Nat → Value) : Value → Value
+  | .nodeId id => look id
+  | .list vs => .list (reifyList look vs)
+  | .map kvs => .map (reifyKVs look kvs)
+  | v => v
+def reifyList (look : Nat → Value) : Values → Values
+  | .nil => .nil
+  | .cons v vs => .cons (reify look v) (reifyList look vs)
+def reifyKVs (look : Nat → Value) : VKVs → VKVs
+  | .nil => .nil
+  | .cons k v rest => .cons k (reify look v) (reifyKVs look rest)
+end
+
+mutual
+/-- "still refers to graph entities by id" -/
+def holdsRef : Value → Bool
+  | .nodeId _ => true
+  | .list vs => holdsRefList vs
+  | .map kvs => holdsRefKVs kvs
+  | _ => false
+def holdsRefList : Values → Bool
+  | .nil => false
+  | .cons v vs => holdsRef v || holdsRefList vs
+def holdsRefKVs : VKVs → Bool
+  | .nil => false
+  | .cons _ v rest => holdsRef v || holdsRefKVs rest
+end
+
+/-- a result row: column name ↦ value, in column order -/
+abbrev Row := List (String × Value)
+
+/-- one row, converted on its own: every value is reified and turned into JSON -/
+def rowJson (look : Nat → Value) (r : Row) : List (String × Json) :=
+  r.map (fun kv => (kv.1, toJson (reify look kv.2)))
+
+/-- a conversion that decides from the FIRST row which columns need reification (not what the code does; the shape
+    of seeded fault C34-seed1) -/
+def rowsJsonFirstRowPolicy (look : Nat → Value) (rows : List Row) : List (List (String × Json)) :=
+  match rows with
+  | [] => []
+  | first :: _ =>
+    let cols := first.map (fun kv => holdsRef kv.2)
+    rows.map (fun r => (r.zip (cols ++ List.replicate r.length true)).map
+      (fun p => (p.1.1, toJson (if p.2 then reify look p.1.2 else p.1.2))))
+
+/-- mirrors `execute_read_rows` + `make_result_handle_from_rows`; the policy flag is read off the source -/
+def rowsJson (look : Nat → Value) (rows : List Row) : List (List (String × Json)) :=
+  if Generated.capiReifiesPerRow then rows.map (rowJson look) else rowsJsonFirstRowPolicy look rows
 
 end Nervus.CApiJson
